@@ -9,8 +9,8 @@ for name in sorted(os.listdir(root)):
         continue
     m = json.load(open(mp))
     checks = m.get('ran', {}).get('checks') or m.get('checks') or {}
-    caught = m.get('caught_by') or [c for c, v in checks.items() if v.get('exit')]
-    missed = m.get('missed_by') or [c for c, v in checks.items() if not v.get('exit')]
+    caught = m['caught_by'] if 'caught_by' in m else [c for c, v in checks.items() if v.get('exit')]
+    missed = m['missed_by'] if 'missed_by' in m else [c for c, v in checks.items() if not v.get('exit')]
     note = (m.get('needs_to_manifest') or m.get('needs') or '').strip().replace('\n', ' ')
     note = re.sub(r'\s+', ' ', note)
     note = note[:150] + ('…' if len(note) > 150 else '')
